@@ -71,7 +71,7 @@ def main():
         json.dump(m, f, indent=1)
     print('MANIFEST.json: %d checks, %d not yet' % (len(checks), len(na)))
 
-HOOK_COMMITS = ['2ab7e99']
+HOOK_COMMITS = ['2ab7e99', '080c1ce']
 
 if __name__ == '__main__':
     main()
